@@ -18,6 +18,9 @@ CONSTANTS
   SharedGen = TRUE
   EmitBeforeClose = TRUE
   MaxHeld = 2
+  MaxSHeld = 0
+  StartBeforeEmit = TRUE
+  CmdFreshTicket = TRUE
 INVARIANT TypeOK
 INVARIANT DistinctTickets
 INVARIANT RegistryExact
